@@ -52,6 +52,10 @@ def run(P, rep, tier):
     from . import c05
 
     rep.attempt(c05.r4_copy_coverage, P, rep, ctx)
+    # the attached SHA-256 is computed by util.hashsums.hashsum: every chunk of the file reaches the digest (C19.R1)
+    from . import c19
+
+    rep.attempt(c19.r1_chunk_loop, P, rep, ctx)
     rep.floor("C17.R1", 4)
     rep.floor("C17.R2", 5)
     rep.floor("C17.R3", 7)
